@@ -21,6 +21,8 @@ Fixpoint objs (D : denv) (v : pval) {struct v} : list pval :=
        | PRandState _ _ _ x => objs D x
        | PRandGen _ _ _ x y => objs D x ++ objs D y
        | PPartial _ _ _ f a k n => objs D f ++ objs D a ++ objs D k ++ objs D n
+       | PObj _ _ _ _ _ ok x =>        (* the state / the argument tuple; an object without state has no part *)
+           match ok with OKState | OKReduce => objs D x | _ => [] end
        | _ => []
        end.
 
@@ -84,6 +86,18 @@ Fixpoint fragb (F : cfacts) (D : denv) (v : pval) {struct v} : bool :=
   | PPartial _ mo c f a k n =>
       pstr_eqb mo (s "functools") && pstr_eqb c (s "partial") && partial_okb a k
       && fragb F D f && fragb F D a && fragb F D k && fragb F D n
+  | PObj _ mo c hk hidden ok x =>
+      (* user objects on the generic object path: ANY class whose name resolves at load and from whose name the loader derives no
+         hidden payload (plain_cls); the state (OKState: any value of the fragment, None and falsy values included), no state
+         (OKNoState), or the __reduce__ argument tuple (OKReduce) *)
+      match hk, hidden with HKNone, [] => true | _, _ => false end
+      && plain_cls F mo c
+      && match ok with
+         | OKState => fragb F D x
+         | OKReduce => match x with PSeq QTuple _ _ _ _ _ => true | _ => false end && fragb F D x
+         | OKNoState => pval_eqb x pnone
+         | OKRaise _ => false
+         end
   | _ => false
   end.
 
@@ -197,7 +211,20 @@ Section Pack.
         destruct x; try (apply pstr_eqb_eq in Hok; exact Hok). destruct sc; try (apply pstr_eqb_eq in Hok; exact Hok). exact I.
       + apply IHa; [exact Hfa|]. intros y Hy. apply Hi. cbn [objs]. right. exact Hy.
     - intros; discriminate.
-    - intros; discriminate.
+    - intros id mo c hk h ok x _ IHx Hf Hi. cbn [fragb] in Hf.
+      apply andb_prop in Hf. destruct Hf as [Hf Hok]. apply andb_prop in Hf. destruct Hf as [Hhh Hpl].
+      destruct hk; try discriminate Hhh. destruct h; try discriminate Hhh.
+      unfold plain_cls in Hpl. apply andb_prop in Hpl. destruct Hpl as [Hr Hhk].
+      assert (Hhk' : hk_of_facts F mo c = HKNone) by (destruct (hk_of_facts F mo c); [reflexivity|discriminate Hhk|discriminate Hhk]).
+      cbn [vok]. split; [unfold Objs; apply Hi; cbn [objs]; left; reflexivity|].
+      split; [reflexivity|]. split; [reflexivity|]. split; [exact Hr|]. split; [exact Hhk'|].
+      destruct ok as [| | |e].
+      + apply andb_prop in Hok. destruct Hok as [Hseq Hfx]. split.
+        * destruct x; try discriminate Hseq. exact I.
+        * apply IHx; [exact Hfx|]. intros y Hy. apply Hi. cbn [objs]. right. exact Hy.
+      + apply IHx; [exact Hok|]. intros y Hy. apply Hi. cbn [objs]. right. exact Hy.
+      + apply pval_eqb_true. exact Hok.
+      + discriminate Hok.
   Qed.
 End Pack.
 
@@ -219,31 +246,31 @@ Definition c05_guard (F : cfacts) (D : denv) (base : Z) (v : pval) : bool :=
   fragb F D v && objs_wf base (objs D v) && Nat.leb (need v) default_fuel.
 
 Theorem share_roundtrip D F C base v j st :
-  c_namedtuples C = f_namedtuples F /\ c_missing C = f_missing F -> c_generic C = f_generic F ->
+  c_namedtuples C = f_namedtuples F /\ c_missing C = f_missing F -> c_generic C = f_generic F -> c_hkinds C = f_hkinds F ->
   c_members C = d_members st -> e_members (c_env C) = map fst (c_members C) ->
   facts_sane F = true -> reg_ok (e_reg (c_env C)) (e_cur (c_env C)) = true ->
   c05_guard F D base v = true ->
   get_state D v (init_dst base) = Ok (j, st) ->
   d_late st = None /\ load_state C (file_table j) (JInt (e_cur (c_env C))) j = Ok v.
 Proof.
-  intros HC HCg HCm HEC Hs Hr Hg Hst. unfold c05_guard in Hg. apply andb_prop in Hg. destruct Hg as [Hg Hn]. apply andb_prop in Hg. destruct Hg as [Hf Hw].
+  intros HC HCg HCh HCm HEC Hs Hr Hg Hst. unfold c05_guard in Hg. apply andb_prop in Hg. destruct Hg as [Hg Hn]. apply andb_prop in Hg. destruct Hg as [Hf Hw].
   apply Nat.leb_le in Hn. destruct (objs_wf_fun _ _ Hw) as [Ofun Oid].
   set (Objs := fun w => In w (objs D v)).
   pose proof (fragb_vok D F (objs D v) v Hf (fun y Hy => Hy)) as Hv.
   (* first with an empty file table: the dump-side conclusions do not depend on it *)
-  destruct (vok_Q D F (c_env C) C [] base Objs Ofun Oid Hr HC Hs (fun h x1 x2 H1 => match H1 with end) HEC HCg v Hv _ _ _ Hst ltac:(cbn; lia))
+  destruct (vok_Q D F (c_env C) C [] base Objs Ofun Oid Hr HC Hs (fun h x1 x2 H1 => match H1 with end) HEC HCg HCh v Hv _ _ _ Hst ltac:(cbn; lia))
     as [Hl [_ [[_ [Hftd _]] _]]].
   split; [exact Hl|].
   assert (Hmok0 : MOK base Objs (init_dst base)) by (intros f b Hd; discriminate Hd).
   rewrite <- HCm in Hftd.
   assert (HFone : forall h x1 x2, In (h, x1) (file_table j) -> In (h, x2) (file_table j) -> fblob C x1 = fblob C x2)
     by (exact (FTd_one C base Objs Ofun Oid _ j Hmok0 Hftd)).
-  destruct (vok_Q D F (c_env C) C (file_table j) base Objs Ofun Oid Hr HC Hs HFone HEC HCg v Hv _ _ _ Hst ltac:(cbn; lia)) as [_ [_ [_ HQ]]].
+  destruct (vok_Q D F (c_env C) C (file_table j) base Objs Ofun Oid Hr HC Hs HFone HEC HCg HCh v Hv _ _ _ Hst ltac:(cbn; lia)) as [_ [_ [_ HQ]]].
   assert (Hpre : Pre C (file_table j) base Objs (init_dst base) j st).
   { split; [intros f b Hd; discriminate Hd|]. split; [rewrite HCm; apply lk_refl|apply incl_refl]. }
   destruct (HQ default_fuel [] (SOne (GetTree.K "root")) Hn ltac:(intros h Hh; discriminate Hh) Hpre) as [R [m' [Ht _]]].
   unfold load_state. rewrite Ht. cbn [bind].
-  apply (root_construct D F (c_env C) C (file_table j) base Objs Ofun Oid Hr HC Hs HFone HEC HCg v _ _ _ default_fuel R m' Hv Hst ltac:(cbn; lia) Hpre Hn Ht).
+  apply (root_construct D F (c_env C) C (file_table j) base Objs Ofun Oid Hr HC Hs HFone HEC HCg HCh v _ _ _ default_fuel R m' Hv Hst ltac:(cbn; lia) Hpre Hn Ht).
   unfold construct_fuel, default_fuel in *. lia.
 Qed.
 
